@@ -1,6 +1,6 @@
 # Per-property claims; exec'd by gen_manifest.py (claim(id, technique, text, note, design_ref)).
 PENDING = "check not built yet in this framework (DESIGN.md §8 build order); no verdict is claimed until its rule set runs clean both ways"
-for _p in ["C01","C02","C03","C04","C14","C18","C19","C20"]:
+for _p in ["C01","C02","C03","C04","C14","C19","C20"]:
     NOT_APPLICABLE[_p] = PENDING
 
 claim("C10",
@@ -74,3 +74,9 @@ claim("C08",
   "For every exported parser of the structures the property names (22 entry points today) the analysis shows that no access path of the value returned on success can hold a reference into the caller's buffer, except the options/properties mappings the property exempts; for accessors documented as returning copies it shows the result is not the receiver's memory. The verdict is per path of the result and independent of the key type or input, which is exactly what the example tests cannot sweep. It found the Ed25519-family signing key and the fast-path padding aliasing (fixed in bf4918e).",
   "Trusted: go/ssa; VTA targets for interface calls; bodies of third-party packages are analysed, standard-library calls follow a summary table (no-flow for formatting/encoding/hashing/logging, may-alias otherwise); no unsafe/reflect in the library (checked). The heap abstraction is flow-insensitive (may-alias), so a clean result is sound; a report names the result path.",
   "DESIGN.md §5 C08")
+
+claim("C18",
+  "effect analysis: the value-flow engine run from every read-only entry point with all receiver/argument memory seeded as shared, reporting every write whose target may be shared; library-wide never-written-after-init check for package-level variables; go-statement scan",
+  "For each of ~580 exported methods/functions (documented mutators and the certificate builder excluded by a reviewed table) no instruction in its closure — store, map update, copy destination, in-place append, sort/PutUint/rand.Read target — can write memory reachable from the receiver, an argument or a package-level variable; appends onto shared slices are admitted only where every store to the source field library-wide assigns a slice without spare capacity (Certificate.kind/len); all ~50 package-level variables (size tables, encodings, loggers, sentinels) are never written after initialisation; the library starts no goroutines. With no write to shared state, no interleaving of read-only calls can race or change a result, so schedules need not be explored — which is what the single-goroutine suite cannot show.",
+  "Trusted: logger, oops, standard library and go-i2p/crypto are safe for concurrent use and do not write through the references they are given (except the listed mutators: sort.*, binary.PutUintN, rand.Read, io.ReadFull); go/ssa; VTA call graph. Flow-insensitive may-alias heap: a clean result is sound under these assumptions.",
+  "DESIGN.md §5 C18")
